@@ -541,7 +541,7 @@ func init() {
 			if !ctx.Quick() {
 				n = ctx.Param("n", 400)
 			}
-			mix := []int{1, 1, 1, 2, 3, 4, 4, 5, 6, 7, 1, 2, 3, 4, 5, 7}
+			mix := []int{1, 4, 5, 6, 7, 2, 3, 1, 4, 5, 7, 6, 1, 2, 3, 4}
 			for i := 0; i < n; i++ {
 				jobs = append(jobs, daemonGen(rng, mix[i%len(mix)]))
 				jtags = append(jtags, []string{"generated"})
